@@ -483,7 +483,7 @@ results -/
 
 /-- the framework accumulators keep no reference to a context they have yielded (and refer only to allocated
 objects) -/
-theorem accOps_tidy' (ns : Nat) (k : AccKind) (hk : k.fresh = true) :
+theorem accOps_tidy_instance (ns : Nat) (k : AccKind) (hk : k.fresh = true) :
     Tidy (accOps ns k) ns (fun s : HSt => s.ctr) := accOps_tidy ns k hk
 
 /-- **Downstream in-place updates of yielded values corrupt neither the source data nor later results.**  For
